@@ -1,5 +1,6 @@
 // govc:pkg condition
 // govc:bound 3 field names x 8 operators x 14 literals (bare numbers, quoted numbers, quoted text, empty) x 3 spacings = 1008 expressions
+// govc:also C06 C13
 // Bounded stand-in (NOT a proof): tryFastCompare recognises `field OP literal` with regular expressions, whose
 // semantics the verifier does not model. Checked here on an enumerated set: a quoted literal is a TEXT literal
 // (never compiled as a number), a bare number is a NUMBER literal with that value, the field and operator are the
